@@ -155,6 +155,7 @@ class NP(object):
     abs = fabs
     absolute = fabs
     isnan = staticmethod(_ufunc(lambda x: vn.app("isnan", x)))
+    ceil = staticmethod(_ufunc(lambda x: vn.app("ceil", x)))
 
     @staticmethod
     def floor(x):
